@@ -8,6 +8,8 @@ open HgImpl
 
 (* cmd/crash replays a node's own events from its database: the pool discipline (C05) is not observable there *)
 let pools_check = ref true
+(* nodes driven with batched consensus passes: the ancestry-only layer (HgSpec) describes per-event mode only (known finding C03-batching-dependence) *)
+let batched : (string, unit) Hashtbl.t = Hashtbl.create 16
 type node = { mutable st : hg; shadow : (string, string) Hashtbl.t; mutable pools : NodeModel.pools; self : string }
 
 let nodes : (string, node) Hashtbl.t = Hashtbl.create 16
@@ -119,6 +121,7 @@ let handle check diff (toks : string list) (raw : string) : bool =
   | ("B" | "I" | "G" | "o" | "K" | "J" | "P" | "T") :: id :: _ when Hashtbl.mem dead id -> true
   | "J" :: id :: rest ->                       (* InsertEvent only (batched consensus passes) *)
     let n = node_of id in
+    Hashtbl.replace batched id ();
     let (e, tail) = parse_event rest in
     let (res, st') = insert_event n.st e in
     n.st <- st';
@@ -126,7 +129,7 @@ let handle check diff (toks : string list) (raw : string) : bool =
     check "J" raw expect (res_str res); true
   | "P" :: id :: [] -> let n = node_of id in n.st <- run_consensus n.st; true
   | "F" :: id :: [] -> Hashtbl.replace dead id (); true
-  | "H" :: _ -> Hashtbl.reset nodes; Hashtbl.reset dead; Hashtbl.reset body_of_id; Hashtbl.reset id_of_body; true
+  | "H" :: _ -> Hashtbl.reset nodes; Hashtbl.reset batched; Hashtbl.reset dead; Hashtbl.reset body_of_id; Hashtbl.reset id_of_body; true
   | "N" :: id :: self :: gen ->
     let ps = map (fun t -> match Stdlib.String.split_on_char ':' t with
         | [pid; ord] -> { Quorum.pid = z_of_string pid; pkey = z_of_string ord }
@@ -181,7 +184,7 @@ let handle check diff (toks : string list) (raw : string) : bool =
          | None -> Hashtbl.replace id_of_body s i | _ -> ())) n.st.delivered;
     (* declarative layer (HgSpec) vs the implementation model, on a sample of the states *)
     incr kcount;
-    if !kcount mod 25 = 0 && Stdlib.List.length n.st.peersets = 1 then begin
+    if !kcount mod 25 = 0 && Stdlib.List.length n.st.peersets = 1 && not (Hashtbl.mem batched id) then begin
       let ps = snd (Stdlib.List.hd n.st.peersets) in
       let mm = HgSpec.spec_mismatches n.st ps in
       check "SPEC" raw "" (join (map (fun (x, k) -> Printf.sprintf "%s:%s" (zs x) (zs k)) mm))
